@@ -76,12 +76,15 @@ let handle kind a =
   | "qry" ->
       let f = parse_file a.(5) (parse_recs a.(3)) in
       let es = index_core (n_of_dec a.(4)) f in
+      (* the file as containers of one slice each: the query is Multi.query_m (slice selected
+         by the entry's landmark) in every compared case *)
+      let mf = single_file f in
       let nrefs = n_of_int (List.length (split_on ',' a.(1))) in
       let regions = if a.(6) = "_" then [] else split_on ';' a.(6) in
       let ans = List.map (fun t ->
         match split_on ':' t with
         | [r; lo; hi] ->
-            (match query_region nrefs es f (n_of_dec r) (opt lo) (opt hi) with
+            (match query_region_m nrefs es mf (n_of_dec r) (opt lo) (opt hi) with
              | Ok [] -> "_"
              | Ok l -> String.concat "," (List.map (fun x -> dec_of_n x.rname) l)
              | e -> fmt_res e)
@@ -165,6 +168,50 @@ let handle kind a =
        | BErr UnexpectedEof -> Some "H=Err:UnexpectedEof"
        | BErr InvalidData -> Some "H=Err:InvalidData"
        | BErr OutOfFuel -> Some "H=OutOfModel")
+  | "aq" ->
+      (* 0-6 base (layout of the undamaged file), 7 mutation, 8 entries, 9 regions, 10 rmode,
+         11 pend, 12 sizes, 13 seeks, 14 chunk, 15 sync script, 16 file bytes *)
+      let f = parse_mfile a.(6) (parse_recs a.(3)) in
+      let file = bytes_of_hex a.(16) in
+      let es = if a.(8) = "_" then [] else List.map (fun t ->
+        match split_on ',' t with
+        | [rid; st; sp; off; lm; sl] ->
+            { e_rid = (if rid = "*" then None else Some (n_of_dec rid));
+              e_start = (if st = "-" then None else Some (n_of_dec st));
+              e_span = n_of_dec sp; e_off = n_of_dec off; e_landmark = n_of_dec lm; e_slen = n_of_dec sl }
+        | _ -> failwith "entry") (split_on ';' a.(8)) in
+      let nrefs = n_of_int (List.length (split_on ',' a.(1))) in
+      let p0 = n_of_dec a.(4) in
+      let qs = if a.(9) = "_" then [] else List.map (fun t ->
+        match split_on ':' t with
+        | [r; lo; hi] -> ((n_of_dec r, opt lo), opt hi)
+        | _ -> failwith "region") (split_on ';' a.(9)) in
+      let fresh = a.(10) = "1" in
+      let pend = a.(11) = "1" in
+      let sizes = if a.(12) = "_" then [] else List.map int_of_string (split_on ',' a.(12)) in
+      (* poll codes: 0 = Pending, k+1 = Ready with at most k bytes *)
+      let codes = List.concat_map (fun k ->
+        if pend then [nat_of_int 0; nat_of_int (k + 1)] else [nat_of_int (k + 1)]) sizes in
+      let seeks = if a.(13) = "_" then [] else
+        List.init (String.length a.(13)) (fun i -> a.(13).[i] = '1') in
+      let chunk = nat_of_int (int_of_string a.(14)) in
+      let script = if a.(15) = "_" then [] else List.map (fun t ->
+        if t = "i" then Interrupted else Deliver (nat_of_int (int_of_string t))) (split_on ',' a.(15)) in
+      let fmt_a = function
+        | AOk l -> fmt_names l
+        | AErr UnexpectedEof -> "Err:UnexpectedEof"
+        | AErr InvalidData -> "Err:InvalidData"
+        | AErr OutOfFuel -> "OutOfModel"
+        | AInvalidInput -> "Err:InvalidInput" in
+      let join l = if l = [] then "_" else String.concat ";" (List.map fmt_a l) in
+      let aq = if fresh
+        then List.concat_map (fun q -> async_queries32 f file codes seeks chunk p0 nrefs es [q]) qs
+        else async_queries32 f file codes seeks chunk p0 nrefs es qs in
+      let sq = if fresh
+        then List.concat_map (fun q -> sync_queries32 f file script p0 nrefs es [q]) qs
+        else sync_queries32 f file script p0 nrefs es qs in
+      Some ("A=" ^ join aq ^ ";AU=" ^ fmt_a (async_query_unmapped32 f file codes seeks chunk p0 es)
+            ^ ";S=" ^ join sq ^ ";SU=" ^ fmt_a (sync_query_unmapped32 f file script p0 es))
   | "unm" ->
       let f = parse_mfile a.(6) (parse_recs a.(3)) in
       (match index_m (n_of_dec a.(4)) f with
